@@ -121,10 +121,16 @@ class _SpyPlugin(SamplerPlugin):
     """Prioritised stand-in for the bundled sampler plug-in: records what each sampler created by the evaluator returns."""
 
     def __init__(self, log):
-        self._log, self._real = log, SciPySamplerPlugin()
+        self._log, self._real, self._created = log, SciPySamplerPlugin(), 0
 
     def create(self, enopt_config, sampler_index, mask, rng):
-        return _SpySampler(self._real.create(enopt_config, sampler_index, mask, rng), sampler_index, self._log)
+        # samplers are created once each, in the order of the configuration entries: the position in that order is the entry
+        # a sampler stands for (the index the library passes along is what it BELIEVES)
+        position = self._created
+        self._created += 1
+        if position >= len(enopt_config.samplers):
+            position = sampler_index
+        return _SpySampler(self._real.create(enopt_config, sampler_index, mask, rng), position, self._log)
 
     def is_supported(self, method):
         return self._real.is_supported(method)
